@@ -380,6 +380,17 @@ def check_property(root, repo, prop, tier, seed, keep=False):
             results.append(kani_run.run_kani_unit(root, repo, us, prop, tier, seed, os.path.join(work, "kani_" + us["name"])))
         else:
             raise SystemExit("bad unit kind")
+    # fallback units: a (slower, bounded) unit of the thorough tier that also decides what a Verus unit decides is run in the
+    # quick tier too when that Verus unit came back undecided (the changed code fell outside Verus' subset or the contract no
+    # longer attaches): better a slow bounded answer than "undecided"
+    if tier != "thorough":
+        for us in pc["units"]:
+            fb = us.get("fallback_for")
+            if fb and us.get("tier") == "thorough" and any(r["unit"] == fb and r["kind"] == "verus" and r["status"] == "undecided" for r in results):
+                if us["kind"] == "kani":
+                    r2 = kani_run.run_kani_unit(root, repo, us, prop, "quick", seed, os.path.join(work, "kani_" + us["name"]))
+                    r2.setdefault("notes", []).append("run as fallback because Verus unit %s was undecided" % fb)
+                    results.append(r2)
     for r in results:
         if r["kind"] == "verus" and r["failed"] and r["cfg"].get("native_cex"):
             cex, rn = native_counterexample(root, repo, r["unit"], os.path.join(work, "cex_" + r["unit"]))
